@@ -59,6 +59,17 @@ func qPool() []string {
 
 // ---- C03-style: FROM / WHERE / select list -----------------------------------------------------------
 func (g *qGen) genSelectJoin(w *qWorld, depth int) qQuery {
+	// one query in three defines a common table expression that its sources may reference (several times)
+	w.ctes = nil
+	with := ""
+	if g.r.Intn(3) == 0 {
+		w.ctes = append(w.ctes, g.genCTE(w))
+		with = "WITH " + w.ctes[0].def + " "
+		if depth == 0 {
+			depth = 1
+		}
+	}
+	defer func() { w.ctes = nil }()
 	src := g.source(w, depth)
 	cols := shiftCols(src.cols)
 	var items, citems []string
@@ -74,7 +85,10 @@ func (g *qGen) genSelectJoin(w *qWorld, depth int) qQuery {
 		wh, cwh = " WHERE "+c.sql, "(Some "+c.coq+")"
 	}
 	q := qQuery{shape: fmt.Sprintf("joins=%d", src.joins)}
-	q.sql = "SELECT " + strings.Join(items, ", ") + " FROM " + src.sql + wh
+	if with != "" {
+		q.shape += "+cte"
+	}
+	q.sql = with + "SELECT " + strings.Join(items, ", ") + " FROM " + src.sql + wh
 	q.coq = fmt.Sprintf("(Q (BSelect %s %s None None %s false) [] None None)", src.coq, cwh, coqList(citems))
 	if src.joins > 0 {
 		q.mode = 1
